@@ -168,7 +168,7 @@ func (e *Enc) structAddr(a Addr) (T, bool) {
 	case ARef:
 		return a.Base, true
 	case AField:
-		return T{"(" + e.fldFun(a.S, a.Idx) + " " + a.Base.S + ")", SInt}, true
+		return e.fldTerm(a.S, a.Idx, a.Base), true
 	case AElem:
 		return e.elemAddr(a.Base, *a.I), true
 	case AGlobal:
